@@ -25,8 +25,8 @@ FLUSH_RAW = 0    # F20: FileProxy.flush prints the pending text as a str (markup
 EMPTY_IGNORED = 0      # F27: an omitted SGR parameter is dropped: "\x1b[m" does not reset (ECMA-48: omitted = 0)
 RESET_DROPS_LINK = 0   # F28: SGR 0 also drops the OSC 8 hyperlink
 OFF_SINGLE = 0         # F29: 24 / 25 leave the double underline / rapid blink on
-CR_ERASES = 1          # F31: a line ending in "\r" (CR LF output) decodes to nothing
-SGR_LAZY = 1           # F32: any "ESC [" is read as SGR up to the next "m": ESC[?25l / ESC[2K / ESC[1A swallow the text after them
+CR_ERASES = 0          # F31: a line ending in "\r" (CR LF output) decodes to nothing
+SGR_LAZY = 0           # F32: any "ESC [" is read as SGR up to the next "m": ESC[?25l / ESC[2K / ESC[1A swallow the text after them
 FLAGS = "".join(str(int(bool(x))) for x in (INT_RAISES, FLUSH_RAW, EMPTY_IGNORED, RESET_DROPS_LINK, OFF_SINGLE, CR_ERASES, SGR_LAZY))
 # development aid only (running against another checkout, VERIF_REPO=<worktree>): VERIF_C19_FLAGS=0000000 overrides the constants above
 FLAGS = os.environ.get("VERIF_C19_FLAGS") or FLAGS
